@@ -5,7 +5,14 @@
 (* the creations that extend them at run time:                             *)
 (*    create_station(name, ..., parent_frame)                              *)
 (*    orbit2frame(name, ref_orbit, None | "QSW" | "TNW", parent)           *)
-(* interleaved with conversions between frames.                            *)
+(*    Frame(name, orientation, centre)   a user-defined frame: an EXISTING *)
+(*                        orientation and an EXISTING centre under a new   *)
+(*                        name (no graph changes; the frame's name differs *)
+(*                        from its orientation's - as for Moon / Mars)     *)
+(*    jpl.create_frames() the centres of a planetary kernel                *)
+(* interleaved with conversions between frames.  A station may stand on a  *)
+(* built-in Earth-fixed frame, on a user-defined frame or on a frame       *)
+(* attached to an orbit.                                                   *)
 (*                                                                         *)
 (* Both graphs are instances of the Routing model (same Node class).  The  *)
 (* link sequences below are the ones the real constructors perform, in     *)
@@ -18,8 +25,10 @@
 (***************************************************************************)
 EXTENDS Naturals, Sequences, FiniteSets, TLC
 
-CONSTANTS MaxCreate,   \* number of creations in a behaviour
-          MaxObserve   \* number of interleaved ObserveAll actions
+CONSTANTS MaxCreate,   \* number of creations in a behaviour (stations and orbit frames: they add graph nodes)
+          MaxObserve,  \* number of interleaved ObserveAll actions
+          MaxUser,     \* number of user-defined frames
+          WithJpl      \* may a planetary kernel be loaded during the session?
 
 \* built-in orientation nodes 1..10 ; created orientations 11..(10+MaxCreate)
 OrientNames == <<"ITRF", "PEF", "TOD", "MOD", "EME2000", "G50", "TEME", "TIRF", "CIRF", "GCRF">>
@@ -110,7 +119,7 @@ CreateOrbitFrame(r, lof, p) ==
 \* jpl.create_frames(): the kernel's centres are linked among themselves (target.add_link(centre)), then the built-in Earth
 \* centre - with whatever already hangs from it - is attached to the kernel's Earth; two of the new frames are kept for observation
 LoadJpl ==
-  /\ ~JplLoaded
+  /\ WithJpl /\ ~JplLoaded
   /\ LET c1 == TLCEval(LinkC(cnb, crt, JM, JS))
          c2 == TLCEval(LinkC(c1[1], c1[2], JE, JS))
          c3 == TLCEval(LinkC(c2[1], c2[2], 1, JE))
@@ -118,6 +127,14 @@ LoadJpl ==
   /\ frames' = frames \o << [kind |-> "jpl", o |-> 5, c |-> JM, parent |-> 0, ref |-> 0], [kind |-> "jpl", o |-> 5, c |-> JS, parent |-> 0, ref |-> 0] >>
   /\ acts' = Append(acts, [op |-> "loadjpl", parent |-> 0, ref |-> 0, lof |-> "-"])
   /\ UNCHANGED <<onb, ort, ohist, nobs>>
+
+\* Frame(name, orientation of frame po, centre of frame pc): nothing is linked, the registry of frames grows
+NUser == Cardinality({i \in 1..Len(frames) : frames[i].kind = "user"})
+CreateUserFrame(po, pc) ==
+  /\ NUser < MaxUser
+  /\ frames' = Append(frames, [kind |-> "user", o |-> frames[po].o, c |-> frames[pc].c, parent |-> po, ref |-> pc])
+  /\ acts' = Append(acts, [op |-> "user", parent |-> po, ref |-> pc, lof |-> "-"])
+  /\ UNCHANGED <<onb, ort, cnb, crt, ohist, nobs>>
 
 \* conversions of a fixed state between every ordered pair of existing frames (pure observation)
 ObserveAll ==
@@ -130,12 +147,16 @@ ObserveAll ==
 \* which parents the replay can realise: stations on Earth-fixed built-in frames ; local orbital frames on
 \* inertial built-in frames ; reference orbits expressed in any non-station frame or in a station frame
 StationParents == {1, 2, 8}              \* ITRF, PEF, TIRF
+    \cup {i \in (NBuiltO + 1)..Len(frames) : frames[i].kind = "user" \/ (frames[i].kind = "orbit" /\ frames[i].o <= NBuiltO)}
+UserOrients == {1, 5}                    \* a user-defined frame re-uses ITRF or EME2000 axes ...
+UserCentres == {1} \cup {i \in (NBuiltO + 1)..Len(frames) : frames[i].kind \in {"station", "jpl"}}     \* ... about Earth, a station or a planet
 InertialParents == {5, 4, 3, 10}         \* EME2000, MOD, TOD, GCRF
 RefFrames == {5, 1, 10} \cup {i \in (NBuiltO + 1)..Len(frames) : TRUE}
 
 Next ==
   \/ \E p \in StationParents : CreateStation(p)
   \/ \E r \in RefFrames, lof \in {"None", "QSW", "TNW"}, p \in InertialParents : CreateOrbitFrame(r, lof, p)
+  \/ \E po \in UserOrients, pc \in UserCentres : CreateUserFrame(po, pc)
   \/ ObserveAll
   \/ LoadJpl
 
